@@ -58,6 +58,11 @@ def grid(tier):
                 continue
         out.append({"family": fam, "shape": shape, "base": base, "slope": slope, "hbp": hbp, "cbp": cbp, "climate": climate,
                     "zone": zone, "draw": draw})
+    # every 4th case uses a model OBJECT that was already fitted on another building (a building that follows the model must be
+    # recovered by the fit whatever the object was used for before)
+    for i, c in enumerate(out):
+        if i % 4 == 0:
+            c["reused_object"] = True
     return out
 
 
@@ -84,14 +89,25 @@ def run_case(case):
     idx2 = ds.local_days("2022-01-01", 365, zone)
     T2 = ds.daily_temperature(idx2, case["climate"], 40 + case["draw"])
     key = {"family": case["family"], "gp": f"{case['shape']}|base={case['base']}|slope={case['slope']}|hbp={case['hbp']}|cbp={case['cbp']}|{case['climate']}"}
+    def fresh(cls):
+        m = cls()
+        if case.get("reused_object"):
+            other = ds.daily_usage(T, noise=0.01, seed=7, base=30.0, hs=2.0, hbp=50.0, cs=0.0, cbp=70.0) if g["cs"] > 0 or g["hs"] == 0 else \
+                ds.daily_usage(T, noise=0.01, seed=7, base=30.0, hs=0.0, hbp=50.0, cs=2.0, cbp=66.0)
+            if cls is em.DailyModel:
+                m.fit(em.DailyBaselineData(pd.DataFrame({"observed": other, "temperature": T}), is_electricity_data=True), ignore_disqualification=True)
+            else:
+                m.fit(em.BillingBaselineData.from_series(ds.billing_reads(other), T, is_electricity_data=True), ignore_disqualification=True)
+        return m
+
     try:
         if case["family"] == "daily":
-            model = em.DailyModel().fit(em.DailyBaselineData(pd.DataFrame({"observed": y, "temperature": T}), is_electricity_data=True),
+            model = fresh(em.DailyModel).fit(em.DailyBaselineData(pd.DataFrame({"observed": y, "temperature": T}), is_electricity_data=True),
                                         ignore_disqualification=True)
             r1 = em.DailyReportingData(pd.DataFrame({"temperature": T}), is_electricity_data=True)
             r2 = em.DailyReportingData(pd.DataFrame({"temperature": T2}), is_electricity_data=True)
         else:
-            model = em.BillingModel().fit(em.BillingBaselineData.from_series(ds.billing_reads(y), T, is_electricity_data=True),
+            model = fresh(em.BillingModel).fit(em.BillingBaselineData.from_series(ds.billing_reads(y), T, is_electricity_data=True),
                                           ignore_disqualification=True)
             r1 = em.BillingReportingData.from_series(None, T, is_electricity_data=True)
             r2 = em.BillingReportingData.from_series(None, T2, is_electricity_data=True)
